@@ -915,7 +915,7 @@ def c04(ctx):
 
 
 # --------------------------------------------------------------------------- schemas
-NTYPES = 42
+NTYPES = 44
 
 
 def sg_cfg(mode, shard, nshards, mutevery, wide=False):
